@@ -6,7 +6,8 @@
  *       answer realloc gives if that call allocates; <junk> is stored in the
  *       field pfn2idx_map_start leaves uninitialised.
  *       -> "B R<pfn>:<idx>:<len>,.. S<pfn>:<idx>,.. Q<idx>,.."  or  "F<consumed>"
- *   X <a|n> <pfn>:<gmfn>,... | <as>:<addr> ...     (as: p = KPHYSADDR, m = MACHPHYSADDR)
+ *   X <a|n>[:<delta>[:<d|n>]] <pfn>:<gmfn>,... | <as>:<addr> ...     (as: p = KPHYSADDR, m = MACHPHYSADDR)
+ *       <delta> (hex) is added to the file offset 0x170 of .xen_p2m/.xen_pfn; 'n' = file.mmap_policy never
  *       end to end: an xc_core ELF64 file (sections .xen_pages and .xen_p2m or
  *       .xen_pfn) is written to a memfd and opened through the public API;
  *       every probe reads 8 bytes at <addr> in <as> (page k of .xen_pages holds
@@ -102,7 +103,7 @@ static int write_all(int fd, const void *buf, size_t len)
 	return 0;
 }
 
-static int make_xc_core(int nonauto, const uint64_t *pfn, const uint64_t *gmfn, size_t n)
+static int make_xc_core(int nonauto, const uint64_t *pfn, const uint64_t *gmfn, size_t n, size_t delta)
 {
 	static const char strtab[] = "\0.shstrtab\0.xen_pages\0.xen_p2m\0.xen_pfn";
 	/* offsets: 1 .shstrtab, 11 .xen_pages, 22 .xen_p2m, 31 .xen_pfn */
@@ -110,7 +111,8 @@ static int make_xc_core(int nonauto, const uint64_t *pfn, const uint64_t *gmfn, 
 	Elf64_Shdr sh[4];
 	size_t mapsz = n * (nonauto ? 16 : 8);
 	size_t off_str = sizeof eh + sizeof sh;
-	size_t off_map = (off_str + sizeof strtab + 15) & ~(size_t)15;
+	/* 0x170 + delta: an unaligned section start makes entries straddle file-cache blocks */
+	size_t off_map = ((off_str + sizeof strtab + 15) & ~(size_t)15) + delta;
 	size_t off_pages = (off_map + mapsz + PAGE_SIZE_X - 1) & ~(PAGE_SIZE_X - 1);
 	uint64_t *page = malloc(PAGE_SIZE_X);
 	char *hdr = calloc(1, off_pages);
@@ -166,7 +168,8 @@ static void endtoend(char *line)
 	char *save = NULL, *s2 = NULL, *tok, *p;
 	uint64_t *pfn = NULL, *gmfn = NULL;
 	size_t n = 0, cap = 0;
-	int nonauto, fd, first = 1;
+	int nonauto, fd, first = 1, never = 0;
+	size_t delta = 0;
 	kdump_ctx_t *ctx;
 	kdump_status st;
 	addrxlat_ctx_t *axctx = NULL;
@@ -174,7 +177,16 @@ static void endtoend(char *line)
 
 	*bar = 0;
 	strtok_r(line, " ", &save);			/* "X" */
-	nonauto = strtok_r(NULL, " ", &save)[0] == 'n';
+	{
+		/* mode: <a|n>[:<delta>[:<mmap policy: d|n>]] */
+		char *mode = strtok_r(NULL, " ", &save), *c;
+		nonauto = mode[0] == 'n';
+		if ((c = strchr(mode, ':'))) {
+			delta = hx(c + 1);
+			if ((c = strchr(c + 1, ':')))
+				never = c[1] == 'n';
+		}
+	}
 	tok = strtok_r(NULL, " ", &save);
 	for (p = tok ? strtok_r(tok, ",", &s2) : NULL; p; p = strtok_r(NULL, ",", &s2)) {
 		if (n == cap) {
@@ -186,12 +198,18 @@ static void endtoend(char *line)
 		gmfn[n] = hx(strchr(p, ':') + 1);
 		++n;
 	}
-	fd = make_xc_core(nonauto, pfn, gmfn, n);
+	fd = make_xc_core(nonauto, pfn, gmfn, n, delta);
 	free(pfn);
 	free(gmfn);
 
 	ctx = kdump_new();
 	if (!ctx) { printf("E-nomem\n"); close(fd); return; }
+	if (never) {
+		kdump_attr_t a;
+		a.type = KDUMP_NUMBER;
+		a.val.number = KDUMP_MMAP_NEVER;
+		kdump_set_attr(ctx, KDUMP_ATTR_FILE_MMAP_POLICY, &a);
+	}
 	st = kdump_open_fd(ctx, fd);
 	if (st != KDUMP_OK) {
 		printf("E%d\n", (int)st);
